@@ -529,6 +529,15 @@ func c13Steps(c c13case) []c13step {
 			{"facts/search", a("pattern", map[string]interface{}{"k": "?any"})}, {"facts/search", a("pattern", d())},
 			{"events/ingest", a("event", ev())}, {"rules/search", a("event", ev())}, {"rules/list", a()},
 			{"facts/query", a("query", map[string]interface{}{"pattern": map[string]interface{}{"k": "?q"}})},
+			// multi-stage queries: the first stage binds ?x (and ?y) to whatever the stored
+			// document holds under k (and j) - possibly a string that looks like the very
+			// variable - and a later stage mentions the variable again
+			{"facts/query", a("query", map[string]interface{}{"and": []interface{}{
+				map[string]interface{}{"pattern": map[string]interface{}{"k": "?x"}},
+				map[string]interface{}{"pattern": map[string]interface{}{"k": "?x"}}}})},
+			{"facts/query", a("query", map[string]interface{}{"and": []interface{}{
+				map[string]interface{}{"pattern": map[string]interface{}{"k": "?y", "j": "?x"}},
+				map[string]interface{}{"pattern": map[string]interface{}{"j": "?y"}}}})},
 			{"facts/rem", a("id", "fx")},
 		}
 	case "rule":
